@@ -206,7 +206,12 @@ def run_impl(case):
             import random as _random
             rr = _random.Random(case.get("cli_seed", 0))
             for lim in case["limits"]:
-                rc, so, se = run_cli(cli_args(case, lim, d, rr) + [str(f)], cwd=d)
+                args = cli_args(case, lim, d, rr) + [str(f)]
+                rc, so, se = run_cli(args, cwd=d)
+                for _ in range(2):          # an overloaded machine (timeout / killed child) is not a verdict: run again, patiently
+                    if rc in (0, 1):
+                        break
+                    rc, so, se = run_cli(args, cwd=d, timeout=400)
                 vs = parse_json_violations(so)
                 if vs is None or rc not in (0, 1):
                     res.append({"error": f"rc={rc} stdout={so[:200]} stderr={se[-300:]}"})
@@ -396,6 +401,8 @@ def eval_shards(workdir: Path, shards):
 def coq_case(case, impl) -> str:
     runs = []
     for lim, r in zip(case["limits"], impl["runs"]):
+        if isinstance(r, dict):   # a failed CLI run: reported as such by the decision loop, judged here as an empty report
+            r = []
         reps = coq.coq_list([f"({l}, {c}, {coq.coq_string(n)}, {d})" for l, c, n, d in r])
         runs.append(f"({lim}, {reps})")
     return f"judge nesting_actual {skel.COQ_LANG[case['lang']]} {skel.coq_file(case['items'])} {coq.coq_list(runs)}"
